@@ -5,6 +5,7 @@
   flags, and returns the same result.
 -/
 import AferoVerif.Model.Walk
+import AferoVerif.Model.Glob
 namespace AferoVerif.C16
 open AferoVerif AferoVerif.Walk
 
@@ -73,5 +74,63 @@ def cbSkipA : Callback := fun _ p _ => if p = "/r/a".toList then .skipDir else .
 example : (WalkA cbSkipA "/r".toList (some t0)).out = .ok ∧
     (WalkA cbSkipA "/r".toList (some t0)).visits = [("/r".toList, true), ("/r/a".toList, false)] := by decide
 example : (WalkS cbSkipA "/r".toList (some t0)).out = .ok := by decide
+
+/-! ### Glob -/
+
+open AferoVerif.Glob in
+/-- a pattern in the property's domain: well-formed (Match accepts it syntactically, and so does
+    every directory part Glob recurses on) and without escapes -/
+def WFPat (m : Glob.MatchFn) : Nat → Str → Prop
+  | 0, _ => True
+  | fuel + 1, pat =>
+    '\\' ∉ pat ∧ (m pat []).isSome ∧ Glob.dirOf pat ≠ pat ∧ WFPat m fuel (Glob.dirOf pat)
+
+theorem hasMeta_eq (p : Str) (h : '\\' ∉ p) : Glob.hasMetaS p = Glob.hasMetaA p := by
+  unfold Glob.hasMetaS Glob.hasMetaA
+  induction p with
+  | nil => rfl
+  | cons c cs ih =>
+    have hc : c ≠ '\\' := fun e => h (by simp [e])
+    have hcs : '\\' ∉ cs := fun e => h (by simp [e])
+    simp only [List.any_cons, ih hcs]
+    simp [hc]
+
+theorem dirOf_no_backslash (p : Str) (h : '\\' ∉ p) : '\\' ∉ Glob.dirOf p := by
+  unfold Glob.dirOf Path.splitDirFile
+  simp only
+  have htake : ∀ k, '\\' ∉ p.take k := fun k hk => h (List.mem_of_mem_take hk)
+  cases Path.lastSlash p with
+  | none => simp [Path.dot]
+  | some i =>
+    simp only
+    split
+    · simp [Path.dot]
+    · split
+      · exact htake _
+      · intro hk; exact htake _ (List.dropLast_subset _ hk)
+
+/-- **C16 (Glob).** For every filesystem view, every `Match`, and every well-formed escape-free
+    pattern, afero.Glob and filepath.Glob return the same list (same matches, same order). -/
+theorem glob_eq (v : Glob.FsView) (m : Glob.MatchFn) (fuel : Nat) (pat : Str) (h : WFPat m fuel pat) :
+    Glob.globS v m fuel pat = Glob.globA v m fuel pat := by
+  induction fuel generalizing pat with
+  | zero => rfl
+  | succ n ih =>
+    obtain ⟨hb, hwf, hne, hrec⟩ := h
+    simp only [Glob.globS, Glob.globA]
+    have h1 : (m pat []).isNone = false := by
+      cases hm : m pat [] with
+      | none => simp [hm] at hwf
+      | some _ => rfl
+    rw [h1, hasMeta_eq pat hb, hasMeta_eq _ (dirOf_no_backslash pat hb)]
+    simp only [Bool.false_eq_true, if_false, hne]
+    rw [ih _ hrec]
+
+/-! non-vacuity on the concrete matcher -/
+example : WFPat Glob.matchFn 3 "/a/*/x[a-c]?".toList := by
+  refine ⟨by decide, by decide, by decide, by decide, by decide, by decide, ?_⟩
+  exact ⟨by decide, by decide, by decide, trivial⟩
+example : Glob.matchFn "x[a-c]?".toList "xbz".toList = some true ∧ Glob.matchFn "*.t?t".toList "a.txt".toList = some true ∧
+    Glob.matchFn "[^a]*".toList "abc".toList = some false := by decide
 
 end AferoVerif.C16
